@@ -23,7 +23,7 @@ def run(src, fn_name, args, check_pre=True, verbose=True):
     import warnings
 
     warnings.filterwarnings("ignore")
-    sys.setrecursionlimit(20000)
+    sys.setrecursionlimit(6000)
     mod = load_source(src)
     fn = getattr(mod, fn_name)
     if check_pre:
